@@ -1,6 +1,619 @@
-// Text-layer components (tok, textdiff, udiff, remap, inline, close, identify).
-use crate::Kv;
+// Text-layer components: tok, utf8, ws, textdiff, udiff, remap, inline, close,
+// identify, repeat.  Texts travel as hex.
+use crate::{fmt_calls, fmt_opt, fmt_tag, install_clock, ops_to_calls, parse_alg, parse_list, parse_opt, parse_range, Kv};
+use similar::{ChangeTag, DiffableStr, TextDiff};
 
-pub fn run(comp: &str, _kv: &Kv) -> String {
-    format!("UNKNOWN-COMPONENT {}", comp)
+pub fn unhex(s: &str) -> Vec<u8> {
+    if s == "-" {
+        return vec![];
+    }
+    (0..s.len() / 2)
+        .map(|i| u8::from_str_radix(&s[2 * i..2 * i + 2], 16).unwrap())
+        .collect()
+}
+
+pub fn hex(b: &[u8]) -> String {
+    if b.is_empty() {
+        return "-".into();
+    }
+    b.iter().map(|x| format!("{:02x}", x)).collect()
+}
+
+fn join(v: Vec<String>, sep: &str) -> String {
+    if v.is_empty() {
+        "-".into()
+    } else {
+        v.join(sep)
+    }
+}
+
+// token boundaries of a tokenization of `src` (tokens must be consecutive
+// sub-slices for the boundaries to be meaningful; "lossy" tokenizers that
+// return substituted bytes are reported by their content instead)
+fn bounds_of<T: DiffableStr + ?Sized>(src: &T, toks: &[&T]) -> String {
+    let base = src.as_bytes().as_ptr() as usize;
+    let len = src.as_bytes().len();
+    let mut out = vec![];
+    for t in toks {
+        let p = t.as_bytes().as_ptr() as usize;
+        let l = t.as_bytes().len();
+        if p >= base && p + l <= base + len {
+            out.push(format!("{}:{}", p - base, p - base + l));
+        } else {
+            // not a sub-slice of the input
+            out.push(format!("X{}", hex(t.as_bytes())));
+        }
+    }
+    join(out, ",")
+}
+
+fn tokenize<'a, T: DiffableStr + ?Sized>(kind: &str, s: &'a T) -> Vec<&'a T> {
+    match kind {
+        "lines" => s.tokenize_lines(),
+        "lnl" => s.tokenize_lines_and_newlines(),
+        "words" => s.tokenize_words(),
+        "chars" => s.tokenize_chars(),
+        "uwords" => s.tokenize_unicode_words(),
+        "graphemes" => s.tokenize_graphemes(),
+        _ => panic!("bad tokenizer"),
+    }
+}
+
+fn case_tok(kv: &Kv) -> String {
+    let kind = kv["kind"];
+    let text = unhex(kv["text"]);
+    if kv["mode"] == "str" {
+        let s = std::str::from_utf8(&text).expect("str mode needs valid utf-8");
+        let toks = tokenize(kind, s);
+        format!("toks={}", bounds_of(s, &toks))
+    } else {
+        let s = &text[..];
+        let toks = tokenize(kind, s);
+        format!("toks={}", bounds_of(s, &toks))
+    }
+}
+
+fn case_utf8(kv: &Kv) -> String {
+    use bstr::ByteSlice;
+    let text = unhex(kv["text"]);
+    let chars: Vec<String> = text
+        .char_indices()
+        .map(|(s, e, c)| format!("{}:{}:{}", s, e, c as u32))
+        .collect();
+    let lossy = String::from_utf8_lossy(&text).into_owned();
+    let valid = std::str::from_utf8(&text).is_ok();
+    let strchars = if valid {
+        let s = std::str::from_utf8(&text).unwrap();
+        join(
+            s.char_indices()
+                .map(|(i, c)| format!("{}:{}:{}", i, i + c.len_utf8(), c as u32))
+                .collect(),
+            ",",
+        )
+    } else {
+        "invalid".into()
+    };
+    format!(
+        "chars={} lossy={} valid={} strchars={}",
+        join(chars, ","),
+        hex(lossy.as_bytes()),
+        if valid { 1 } else { 0 },
+        strchars
+    )
+}
+
+fn case_ws(kv: &Kv) -> String {
+    let (lo, hi) = parse_range(kv["range"]);
+    let mut v = vec![];
+    for cp in lo..hi {
+        if let Some(c) = char::from_u32(cp as u32) {
+            if c.is_whitespace() {
+                v.push(cp.to_string());
+            }
+        }
+    }
+    format!("ws={}", join(v, ","))
+}
+
+fn cfg(kv: &Kv) -> (similar::TextDiffConfig, Option<u64>) {
+    let mut c = TextDiff::configure();
+    c.algorithm(parse_alg(kv["alg"]));
+    if let Some(v) = kv.get("nlo") {
+        match *v {
+            "0" => {
+                c.newline_terminated(false);
+            }
+            "1" => {
+                c.newline_terminated(true);
+            }
+            _ => {}
+        }
+    }
+    let dl = kv.get("dl").and_then(|x| parse_opt(x));
+    (c, dl)
+}
+
+fn set_deadline(c: &mut similar::TextDiffConfig, dl: Option<u64>, via: &str) {
+    if dl.is_some() {
+        install_clock(dl);
+        match via {
+            "timeout" => {
+                c.timeout(std::time::Duration::from_secs(3600));
+            }
+            _ => {
+                c.deadline(std::time::Instant::now() + std::time::Duration::from_secs(3600));
+            }
+        }
+    }
+}
+
+fn diff_with<'a, T: DiffableStr + ?Sized>(
+    c: &similar::TextDiffConfig,
+    kind: &str,
+    old: &'a T,
+    new: &'a T,
+) -> TextDiff<'a, 'a, 'a, T> {
+    match kind {
+        "lines" => c.diff_lines(old, new),
+        "words" => c.diff_words(old, new),
+        "chars" => c.diff_chars(old, new),
+        "uwords" => c.diff_unicode_words(old, new),
+        "graphemes" => c.diff_graphemes(old, new),
+        _ => panic!("bad tokenizer"),
+    }
+}
+
+fn alg_letter(a: similar::Algorithm) -> &'static str {
+    match a {
+        similar::Algorithm::Myers => "M",
+        similar::Algorithm::Patience => "P",
+        similar::Algorithm::Lcs => "L",
+    }
+}
+
+fn textdiff_report<'a, T: DiffableStr + ?Sized>(d: &'a TextDiff<'a, 'a, 'a, T>, old: &'a T, new: &'a T, probes: u64) -> String {
+    let changes: Vec<String> = d
+        .iter_all_changes()
+        .map(|c| {
+            format!(
+                "{}:{}:{}:{}",
+                fmt_tag(c.tag()),
+                fmt_opt(c.old_index()),
+                fmt_opt(c.new_index()),
+                hex(c.value().as_bytes())
+            )
+        })
+        .collect();
+    // per-op expansion must agree with whole-diff iteration
+    let per_op: Vec<String> = d
+        .ops()
+        .iter()
+        .flat_map(|op| d.iter_changes(op))
+        .map(|c| {
+            format!(
+                "{}:{}:{}:{}",
+                fmt_tag(c.tag()),
+                fmt_opt(c.old_index()),
+                fmt_opt(c.new_index()),
+                hex(c.value().as_bytes())
+            )
+        })
+        .collect();
+    let direct = similar::capture_diff_slices(d.algorithm(), d.old_slices(), d.new_slices());
+    format!(
+        "ops={} direct={} nt={} alg={} probes={} ratio={} otoks={} ntoks={} changes={} perop_same={}",
+        fmt_calls(&ops_to_calls(d.ops())),
+        fmt_calls(&ops_to_calls(&direct)),
+        if d.newline_terminated() { 1 } else { 0 },
+        alg_letter(d.algorithm()),
+        probes,
+        d.ratio().to_bits(),
+        bounds_of(old, d.old_slices()),
+        bounds_of(new, d.new_slices()),
+        join(changes.clone(), ","),
+        if changes == per_op { 1 } else { 0 }
+    )
+}
+
+fn case_textdiff(kv: &Kv) -> String {
+    let kind = kv["tok"];
+    let o = unhex(kv["old"]);
+    let n = unhex(kv["new"]);
+    let (mut c, dl) = cfg(kv);
+    set_deadline(&mut c, dl, kv.get("via").copied().unwrap_or("deadline"));
+    let r = if kv["mode"] == "str" {
+        let os = std::str::from_utf8(&o).unwrap();
+        let ns = std::str::from_utf8(&n).unwrap();
+        let d = diff_with(&c, kind, os, ns);
+        let probes = if dl.is_some() { similar::verif::clock_remove() } else { 0 };
+        textdiff_report(&d, os, ns, probes)
+    } else {
+        let d = diff_with(&c, kind, &o[..], &n[..]);
+        let probes = if dl.is_some() { similar::verif::clock_remove() } else { 0 };
+        textdiff_report(&d, &o[..], &n[..], probes)
+    };
+    r
+}
+
+fn case_udiff(kv: &Kv) -> String {
+    let o = unhex(kv["old"]);
+    let n = unhex(kv["new"]);
+    let (c, _) = cfg(kv);
+    let radius: usize = kv["radius"].parse().unwrap();
+    let header = kv["header"] == "1";
+    let hint = kv["hint"] == "1";
+    let via = kv["via"];
+    let repair = kv.get("repair").copied().unwrap_or("0") == "1";
+    similar::verif::set_repair_swap(repair);
+    fn render<'a, T: DiffableStr + ?Sized>(
+        d: &'a TextDiff<'a, 'a, 'a, T>,
+        radius: usize,
+        header: bool,
+        hint: bool,
+        via: &str,
+    ) -> Vec<u8> {
+        let mut u = d.unified_diff();
+        u.context_radius(radius).missing_newline_hint(hint);
+        if header {
+            u.header("a", "b");
+        }
+        match via {
+            "display" => u.to_string().into_bytes(),
+            "writer" => {
+                let mut out = vec![];
+                u.to_writer(&mut out).unwrap();
+                out
+            }
+            "hunks" => {
+                // per-hunk writer, file header written by hand
+                let mut out = vec![];
+                let mut first = true;
+                for h in u.iter_hunks() {
+                    if first && header {
+                        out.extend_from_slice(b"--- a\n+++ b\n");
+                    }
+                    first = false;
+                    h.to_writer(&mut out).unwrap();
+                }
+                out
+            }
+            _ => panic!("bad via"),
+        }
+    }
+    let out = if via == "fn" {
+        // udiff::unified_diff (str only)
+        let os = std::str::from_utf8(&o).unwrap();
+        let ns = std::str::from_utf8(&n).unwrap();
+        similar::udiff::unified_diff(
+            parse_alg(kv["alg"]),
+            os,
+            ns,
+            radius,
+            if header { Some(("a", "b")) } else { None },
+        )
+        .into_bytes()
+    } else if kv["mode"] == "str" {
+        let os = std::str::from_utf8(&o).unwrap();
+        let ns = std::str::from_utf8(&n).unwrap();
+        let d = c.diff_lines(os, ns);
+        render(&d, radius, header, hint, via)
+    } else {
+        let d = c.diff_lines(&o[..], &n[..]);
+        render(&d, radius, header, hint, via)
+    };
+    // Display vs to_writer on the same diff: identical on str; Display = lossy(writer) on bytes
+    let rel = if via == "display" {
+        let w = if kv["mode"] == "str" {
+            let os = std::str::from_utf8(&o).unwrap();
+            let ns = std::str::from_utf8(&n).unwrap();
+            let d = c.diff_lines(os, ns);
+            render(&d, radius, header, hint, "writer")
+        } else {
+            let d = c.diff_lines(&o[..], &n[..]);
+            render(&d, radius, header, hint, "writer")
+        };
+        let lossy = String::from_utf8_lossy(&w).into_owned().into_bytes();
+        format!(
+            " writer_same={} lossy_writer_same={}",
+            if w == out { 1 } else { 0 },
+            if lossy == out { 1 } else { 0 }
+        )
+    } else {
+        String::new()
+    };
+    similar::verif::set_repair_swap(false);
+    format!("out={}{}", hex(&out), rel)
+}
+
+fn fmt_slices<T: DiffableStr + ?Sized>(v: &[(ChangeTag, &T)]) -> String {
+    join(
+        v.iter()
+            .map(|(t, s)| format!("{}:{}", fmt_tag(*t), hex(s.as_bytes())))
+            .collect(),
+        ",",
+    )
+}
+
+// byte offsets of every returned slice inside its source text (old for Equal/Delete, new for Insert)
+fn fmt_bounds<T: DiffableStr + ?Sized>(v: &[(ChangeTag, &T)], old: &T, new: &T) -> String {
+    join(
+        v.iter()
+            .map(|(t, s)| {
+                let src = if *t == ChangeTag::Insert { new } else { old };
+                let base = src.as_bytes().as_ptr() as usize;
+                let p = s.as_bytes().as_ptr() as usize;
+                let l = s.as_bytes().len();
+                if p >= base && p + l <= base + src.as_bytes().len() {
+                    format!("{}:{}:{}", fmt_tag(*t), p - base, p - base + l)
+                } else {
+                    format!("{}:X:X", fmt_tag(*t))
+                }
+            })
+            .collect(),
+        ",",
+    )
+}
+
+fn case_remap(kv: &Kv) -> String {
+    let kind = kv["tok"];
+    let alg = parse_alg(kv["alg"]);
+    let o = unhex(kv["old"]);
+    let n = unhex(kv["new"]);
+    fn helper<'x, T: similar::DiffableStrRef + ?Sized>(
+        kind: &str,
+        alg: similar::Algorithm,
+        old: &'x T,
+        new: &'x T,
+    ) -> Vec<(ChangeTag, &'x T::Output)> {
+        match kind {
+            "chars" => similar::utils::diff_chars(alg, old, new),
+            "words" => similar::utils::diff_words(alg, old, new),
+            "uwords" => similar::utils::diff_unicode_words(alg, old, new),
+            "graphemes" => similar::utils::diff_graphemes(alg, old, new),
+            "lines" => similar::utils::diff_lines(alg, old, new),
+            _ => panic!("bad tokenizer"),
+        }
+    }
+    if kv["mode"] == "str" {
+        let os = std::str::from_utf8(&o).unwrap();
+        let ns = std::str::from_utf8(&n).unwrap();
+        let v = helper(kind, alg, os, ns);
+        // the explicit remapper over the same diff must give the same slices
+        let mut c = TextDiff::configure();
+        c.algorithm(alg);
+        let d = diff_with(&c, kind, os, ns);
+        let rm = similar::utils::TextDiffRemapper::from_text_diff(&d, os, ns);
+        let v2: Vec<(ChangeTag, &str)> = d.ops().iter().flat_map(|op| rm.iter_slices(op)).collect();
+        let same = if kind == "lines" { true } else { v == v2 };
+        format!(
+            "slices={} remapper_same={} ops={} otoks={} ntoks={} bounds={}",
+            fmt_slices(&v),
+            if same { 1 } else { 0 },
+            fmt_calls(&ops_to_calls(d.ops())),
+            bounds_of(os, d.old_slices()),
+            bounds_of(ns, d.new_slices()),
+            fmt_bounds(&v, os, ns)
+        )
+    } else {
+        let v = helper(kind, alg, &o[..], &n[..]);
+        let mut c = TextDiff::configure();
+        c.algorithm(alg);
+        let d = diff_with(&c, kind, &o[..], &n[..]);
+        let rm = similar::utils::TextDiffRemapper::from_text_diff(&d, &o[..], &n[..]);
+        let v2: Vec<(ChangeTag, &[u8])> = d.ops().iter().flat_map(|op| rm.iter_slices(op)).collect();
+        let same = if kind == "lines" { true } else { v == v2 };
+        format!(
+            "slices={} remapper_same={} ops={} otoks={} ntoks={} bounds={}",
+            fmt_slices(&v),
+            if same { 1 } else { 0 },
+            fmt_calls(&ops_to_calls(d.ops())),
+            bounds_of(&o[..], d.old_slices()),
+            bounds_of(&n[..], d.new_slices()),
+            fmt_bounds(&v, &o[..], &n[..])
+        )
+    }
+}
+
+fn case_slices(kv: &Kv) -> String {
+    // utils::diff_slices over integer items
+    let alg = parse_alg(kv["alg"]);
+    let old = parse_list(kv["old"]);
+    let new = parse_list(kv["new"]);
+    let v = similar::utils::diff_slices(alg, &old[..], &new[..]);
+    format!(
+        "slices={}",
+        join(
+            v.iter()
+                .map(|(t, s)| format!(
+                    "{}:{}",
+                    fmt_tag(*t),
+                    s.iter().map(|x| x.to_string()).collect::<Vec<_>>().join(".")
+                ))
+                .collect(),
+            ","
+        )
+    )
+}
+
+fn case_inline(kv: &Kv) -> String {
+    let o = unhex(kv["old"]);
+    let n = unhex(kv["new"]);
+    let (c, _) = cfg(kv);
+    let dl = kv.get("idl").and_then(|x| parse_opt(x));
+    fn report<'a, T: DiffableStr + ?Sized>(d: &'a TextDiff<'a, 'a, 'a, T>, dl: Option<u64>) -> String {
+        let mut per_op = vec![];
+        let mut probes_total = 0;
+        for op in d.ops() {
+            let deadline = install_clock(dl);
+            let chs: Vec<String> = d
+                .iter_inline_changes_deadline(op, deadline)
+                .map(|ch| {
+                    let vals: Vec<String> = ch
+                        .values()
+                        .iter()
+                        .map(|(e, v)| format!("{}.{}", if *e { 1 } else { 0 }, hex(v.as_bytes())))
+                        .collect();
+                    format!(
+                        "{}:{}:{}:{}:{}",
+                        fmt_tag(ch.tag()),
+                        fmt_opt(ch.old_index()),
+                        fmt_opt(ch.new_index()),
+                        if ch.missing_newline() { 1 } else { 0 },
+                        join(vals, ";")
+                    )
+                })
+                .collect();
+            if dl.is_some() {
+                probes_total += similar::verif::clock_remove();
+            }
+            per_op.push(join(chs, ","));
+        }
+        let _ = probes_total;
+        format!(
+            "ops={} inline={}",
+            fmt_calls(&ops_to_calls(d.ops())),
+            join(per_op, "|")
+        )
+    }
+    if kv["mode"] == "str" {
+        let os = std::str::from_utf8(&o).unwrap();
+        let ns = std::str::from_utf8(&n).unwrap();
+        let d = c.diff_lines(os, ns);
+        report(&d, dl)
+    } else {
+        let d = c.diff_lines(&o[..], &n[..]);
+        report(&d, dl)
+    }
+}
+
+fn case_close(kv: &Kv) -> String {
+    let word = unhex(kv["word"]);
+    let cands: Vec<Vec<u8>> = if kv["cands"] == "-" {
+        vec![]
+    } else {
+        kv["cands"]
+            .split('|')
+            .map(|x| if x == "e" { vec![] } else { unhex(x) })
+            .collect()
+    };
+    let n: usize = kv["n"].parse().unwrap();
+    let cutoff = f32::from_bits(kv["cutoff"].parse::<u32>().unwrap());
+    let w = std::str::from_utf8(&word).unwrap();
+    let cs: Vec<&str> = cands.iter().map(|c| std::str::from_utf8(c).unwrap()).collect();
+    let r = similar::get_close_matches(w, &cs, n, cutoff);
+    // also report each candidate's ratio bits so the oracle can be checked independently
+    let ratios: Vec<String> = cs
+        .iter()
+        .map(|c| {
+            let d = TextDiff::from_chars(w, *c);
+            d.ratio().to_bits().to_string()
+        })
+        .collect();
+    format!(
+        "res={} ratios={}",
+        join(
+            r.iter()
+                .map(|x| if x.is_empty() { "e".to_string() } else { hex(x.as_bytes()) })
+                .collect(),
+            "|"
+        ),
+        join(ratios, ",")
+    )
+}
+
+fn case_identify(kv: &Kv) -> String {
+    use similar::algorithms::IdentifyDistinct;
+    let old = parse_list(kv["old"]);
+    let new = parse_list(kv["new"]);
+    let (os, oe) = parse_range(kv["or"]);
+    let (ns, ne) = parse_range(kv["nr"]);
+    macro_rules! go {
+        ($t:ty) => {{
+            let ih = IdentifyDistinct::<$t>::new(&old[..], os..oe, &new[..], ns..ne);
+            let orr = ih.old_range();
+            let nrr = ih.new_range();
+            let oids: Vec<String> = orr.clone().map(|i| (ih.old_lookup()[i] as u64).to_string()).collect();
+            let nids: Vec<String> = nrr.clone().map(|i| (ih.new_lookup()[i] as u64).to_string()).collect();
+            format!(
+                "oids={} nids={} or={}:{} nr={}:{}",
+                join(oids, ","),
+                join(nids, ","),
+                orr.start,
+                orr.end,
+                nrr.start,
+                nrr.end
+            )
+        }};
+    }
+    match kv["w"] {
+        "u8" => go!(u8),
+        "u16" => go!(u16),
+        "u32" => go!(u32),
+        "u64" => go!(u64),
+        _ => panic!("bad width"),
+    }
+}
+
+// C20: the same capture repeated in several threads (fresh RandomState per
+// HashMap) and under relabellings must always give the same ops
+fn case_repeat(kv: &Kv) -> String {
+    let alg = parse_alg(kv["alg"]);
+    let old = parse_list(kv["old"]);
+    let new = parse_list(kv["new"]);
+    let (os, oe) = parse_range(kv["or"]);
+    let (ns, ne) = parse_range(kv["nr"]);
+    let reps: usize = kv["reps"].parse().unwrap();
+    let base = similar::capture_diff(alg, &old[..], os..oe, &new[..], ns..ne);
+    let mut all_same = true;
+    // relabellings: order preserving (x -> 3x+7), order reversing (x -> M - x), hash scrambling
+    let maps: Vec<Box<dyn Fn(u64) -> u64 + Send + Sync>> = vec![
+        Box::new(|x| x),
+        Box::new(|x| 3 * x + 7),
+        Box::new(|x| 1_000_000_007 - x),
+        Box::new(|x| x.wrapping_mul(0x9E3779B97F4A7C15) ^ 0xD1B54A32D192ED03),
+    ];
+    let maps = std::sync::Arc::new(maps);
+    let mut handles = vec![];
+    for t in 0..4usize {
+        let old = old.clone();
+        let new = new.clone();
+        let base = base.clone();
+        let maps = maps.clone();
+        handles.push(std::thread::spawn(move || {
+            let mut ok = true;
+            for r in 0..reps {
+                let f = &maps[(t + r) % maps.len()];
+                let o2: Vec<u64> = old.iter().map(|x| f(*x)).collect();
+                let n2: Vec<u64> = new.iter().map(|x| f(*x)).collect();
+                let ops = similar::capture_diff(alg, &o2[..], os..oe, &n2[..], ns..ne);
+                if ops != base {
+                    ok = false;
+                }
+            }
+            ok
+        }));
+    }
+    for h in handles {
+        if !h.join().unwrap() {
+            all_same = false;
+        }
+    }
+    format!("ops={} all_same={}", fmt_calls(&ops_to_calls(&base)), if all_same { 1 } else { 0 })
+}
+
+pub fn run(comp: &str, kv: &Kv) -> String {
+    match comp {
+        "tok" => case_tok(kv),
+        "utf8" => case_utf8(kv),
+        "ws" => case_ws(kv),
+        "textdiff" => case_textdiff(kv),
+        "udiff" => case_udiff(kv),
+        "remap" => case_remap(kv),
+        "slices" => case_slices(kv),
+        "inline" => case_inline(kv),
+        "close" => case_close(kv),
+        "identify" => case_identify(kv),
+        "repeat" => case_repeat(kv),
+        _ => format!("UNKNOWN-COMPONENT {}", comp),
+    }
 }
